@@ -56,6 +56,12 @@ def capture_case(draw, allow_1d=True, max_batch=2):
     bF, bS = bF[dropF:], bS[dropS:]
     fshape = tuple(bF) + (nf, nd) if fkind == "2d" else (nd,)
     sshape = tuple(bS) + (ns, nd) if skind == "2d" else (nd,)
+    # a spectrally flat filter set / signal set in broadcast form: domain axis of length one against the other side's full domain
+    flat = draw(st.sampled_from([None, None, None, None, None, "f", "s"]))
+    if flat == "f" and fkind == "2d":
+        fshape = fshape[:-1] + (1,)
+    elif flat == "s" and skind == "2d":
+        sshape = sshape[:-1] + (1,)
     F = draw(gens.array(fshape))
     S = draw(gens.array(sshape))
     dom = draw(domains(nd))
@@ -105,7 +111,8 @@ def _labels(case):
     F = np.asarray(case["filters"], dtype=float)
     S = np.asarray(case["signals"], dtype=float)
     dom = case["domain"]
-    nd = F.shape[-1]
+    nd = max(F.shape[-1], S.shape[-1])
+    F, S = np.broadcast_to(F, F.shape[:-1] + (nd,)), np.broadcast_to(S, S.shape[:-1] + (nd,))
     labs = [f"F{F.ndim}d", f"S{S.ndim}d", "step" if not isinstance(dom, list) else ("uniform" if gens.is_uniform(dom) else "nonuniform")]
     if not case.get("trapz", True):
         labs.append("rect")
@@ -216,7 +223,7 @@ def body_linearity(case):
     _close(q_mix_s, al * q_s1 + be * q_s2, sc_s, 1e-10, "linear-signals", "capture(F, a*S1+b*S2) vs a*capture(F,S1)+b*capture(F,S2)")
     _close(q_mix_f, al * q_s1 + be * q_f2, sc_f, 1e-10, "linear-filters", "capture(a*F1+b*F2, S) vs a*capture(F1,S)+b*capture(F2,S)")
     labs = _labels(case)
-    if al != 0 and be != 0 and F.shape[-1] >= 2:
+    if al != 0 and be != 0 and max(F.shape[-1], S.shape[-1]) >= 2:
         labs.append("nt:superposition")
     return labs
 
@@ -233,7 +240,7 @@ def body_step(case):
     dreye = _dreye()
     F, S = np.asarray(case["filters"], dtype=float), np.asarray(case["signals"], dtype=float)
     dx = _dom_arg(case["domain"])
-    nd = F.shape[-1]
+    nd = max(F.shape[-1], S.shape[-1])
     with calling("calculate_capture"):
         a = np.asarray(dreye.calculate_capture(F, S, domain=dx))
         b = np.asarray(dreye.calculate_capture(F, S, domain=np.arange(nd) * dx))
